@@ -1,12 +1,13 @@
 (* driver.ml: runs the extracted Coq model on case lines (stdin) and prints one observation per
    line, in the same grammar as harness/src (sfs-probe). nat, N and Z are all Z.t. *)
 module ZA = Z   (* zarith; the extracted model also defines a module Z *)
+module S = Stdlib.String
 open Model
 
 let zs = ZA.to_string
-let parse_list s = if s = "-" then [] else List.map ZA.of_string (String.split_on_char ',' s)
-let fmt_list l = if l = [] then "-" else String.concat "," (List.map zs l)
-let split_ws s = List.filter (fun t -> t <> "") (String.split_on_char ' ' s)
+let parse_list s = if s = "-" then [] else List.map ZA.of_string (S.split_on_char ',' s)
+let fmt_list l = if l = [] then "-" else S.concat "," (List.map zs l)
+let split_ws s = List.filter (fun t -> t <> "") (S.split_on_char ' ' s)
 
 let rec seqz a n = if ZA.leq n ZA.zero then [] else a :: seqz (ZA.succ a) (ZA.pred n)
 let ramp sh = { adata = seqz ZA.zero (elements sh); ashape = sh }
@@ -43,7 +44,7 @@ let run_array toks =
       i := i';
       (match o with
        | Some v -> let items = view_items v in
-         add (" V" ^ (if items = [] then "-" else String.concat ";" (List.map zs items)))
+         add (" V" ^ (if items = [] then "-" else S.concat ";" (List.map zs items)))
        | None -> add " N");
       add (" L" ^ zs (axis_len x a !i))
     done
@@ -67,15 +68,15 @@ let run_array toks =
 
 (* ---------------------------------------------------------------- spectrum-level ops *)
 let parse_q tok : qc =
-  match String.split_on_char '/' tok with
+  match S.split_on_char '/' tok with
   | [n] -> qc_of (ZA.of_string n) ZA.one
   | [n; d] -> qc_of (ZA.of_string n) (ZA.of_string d)
   | _ -> failwith "bad rational"
-let parse_qs s = if s = "-" then [] else List.map parse_q (String.split_on_char ',' s)
+let parse_qs s = if s = "-" then [] else List.map parse_q (S.split_on_char ',' s)
 let fmt_q (q : qc) =
   let n = qc_num q and d = qc_den q in
   if ZA.equal d ZA.one then zs n else zs n ^ "/" ^ zs d
-let fmt_qs l = if l = [] then "-" else String.concat "," (List.map fmt_q l)
+let fmt_qs l = if l = [] then "-" else S.concat "," (List.map fmt_q l)
 let mk_spec sh data : spectrum = { adata = parse_qs data; ashape = parse_list sh }
 let fmt_spec (y : spectrum) = fmt_list y.ashape ^ " " ^ fmt_qs y.adata
 
@@ -97,7 +98,7 @@ let run_spectrum toks =
   | ["fold"; sh; data; fill] ->
     let x = mk_spec sh data in
     let cells = folded_cells x (fill_of fill) in
-    add (fmt_list x.ashape ^ " " ^ (if cells = [] then "-" else String.concat "," (List.map fmt_cell cells)))
+    add (fmt_list x.ashape ^ " " ^ (if cells = [] then "-" else S.concat "," (List.map fmt_cell cells)))
   | ["marg"; sh; data; axes] ->
     (match marginalize (mk_spec sh data) (parse_list axes) with
      | Inl y -> add ("OK " ^ fmt_spec y)
@@ -113,6 +114,119 @@ let run_spectrum toks =
   | ["binom"; n; k] -> add (zs (binomN (ZA.of_string n) (ZA.of_string k)))
   | _ -> add "BAD-CASE"
 
+(* ---------------------------------------------------------------- bytes-level ops (npy, text) *)
+let hex_of_bytes (bs : ZA.t list) =
+  if bs = [] then "-" else S.concat "" (List.map (fun b -> Printf.sprintf "%02x" (ZA.to_int b)) bs)
+let bytes_of_hex s =
+  if s = "-" then [] else
+  List.init (S.length s / 2) (fun i -> ZA.of_int (int_of_string ("0x" ^ S.sub s (2 * i) 2)))
+let parse_bits tok = (* b<16 hex digits> *)
+  ZA.of_string ("0x" ^ S.sub tok 1 (S.length tok - 1))
+let parse_bits_list s = if s = "-" then [] else List.map parse_bits (S.split_on_char ',' s)
+let fmt_bits w = Printf.sprintf "b%s" (ZA.format "%016x" w)
+let fmt_bits_list l = if l = [] then "-" else S.concat "," (List.map fmt_bits l)
+
+let run_bytes toks =
+  match toks with
+  | ["npyw"; sh; bits] -> add (hex_of_bytes (write_npy (parse_list sh) (parse_bits_list bits)))
+  | ["npyr"; hex] ->
+    (match read_npy (bytes_of_hex hex) with
+     | Inl (sh, vals) -> add ("OK " ^ fmt_list sh ^ " " ^ fmt_bits_list vals)
+     | Inr _ -> add "ERR")
+  | ["textw"; sh; p; bits] -> add (hex_of_bytes (write_text (parse_list sh) (parse_bits_list bits) (ZA.of_string p)))
+  | ["read"; hex] ->
+    (match read_spectrum (bytes_of_hex hex) with
+     | Inl (sh, vals) -> add ("OK " ^ fmt_list sh ^ " " ^ fmt_bits_list vals)
+     | Inr _ -> add "ERR")
+  | ["fmt"; bits; p] -> add ("S" ^ hex_of_bytes (print_fixed (parse_bits bits) (ZA.of_string p)))
+  | ["parse"; hex] ->
+    (match parse_f64 (bytes_of_hex hex) with Some w -> add (fmt_bits w) | None -> add "ERR")
+  | ["detect"; hex] ->
+    (match detect_format (bytes_of_hex hex) with Some FNpy -> add "npy" | Some FText -> add "text" | None -> add "none")
+  | _ -> add "BAD-CASE"
+
+(* ---------------------------------------------------------------- create path *)
+let name_of_string s : name = List.init (S.length s) (fun i -> ZA.of_int (Char.code s.[i]))
+let string_of_name (n : name) = S.init (List.length n) (fun i -> Char.chr (ZA.to_int (List.nth n i)))
+let split_list s = if s = "-" then [] else S.split_on_char ',' s
+
+(* GT text -> decoded field, as noodles decodes it: "." alone is the missing field *)
+let gt_of_string s : vcf_gt =
+  if s = "." then None
+  else
+    let parts = S.split_on_char '/' (S.concat "/" (S.split_on_char '|' s)) in
+    Some (List.map (fun a -> if a = "." then None else Some (ZA.of_string a)) parts)
+
+let fmt_gres = function
+  | GCalled g -> "called " ^ zs g | GMissing -> "missing" | GMultiallelic -> "multiallelic" | GPloidyErr -> "ploidy"
+
+let parse_samples = function
+  | "ALL" -> SamplesAll
+  | "EMPTY" -> SamplesList []
+  | l -> SamplesList (List.map (fun e ->
+      match S.index_opt e ':' with
+      | Some i -> let n = S.sub e 0 i and p = S.sub e (i + 1) (S.length e - i - 1) in
+        (name_of_string n, if p = "-" then None else Some (name_of_string p))
+      | None -> failwith "name:pop") (S.split_on_char ',' l))
+let parse_project = function
+  | "-" -> None
+  | p -> let k = S.sub p 0 1 and v = parse_list (S.sub p 2 (S.length p - 2)) in
+    Some (if k = "i" then ProjIndividuals v else ProjShape v)
+let parse_records s : vcf_gt list list =
+  if s = "-" then [] else List.map (fun r -> List.map gt_of_string (S.split_on_char ',' r)) (S.split_on_char ';' s)
+
+let fmt_build_err = function
+  | EEmptySamplesMap -> "ERR:empty"
+  | EUnknownSample n -> "ERR:unknown:" ^ string_of_name n
+  | EProjection e -> "ERR:proj:" ^ S.concat "_" (S.split_on_char ' ' (fmt_perr e))
+  | EPanicShape -> "PANIC"
+
+let run_create toks =
+  match toks with
+  | ["classify"; gt] -> add (fmt_gres (classify (gt_of_string gt)))
+  | ["sites"; cols; samples; proj; recs] ->
+    let cols = List.map name_of_string (split_list cols) in
+    (match build_reader cols (parse_samples samples) (parse_project proj) with
+     | Inr e -> add (fmt_build_err e)
+     | Inl cfg ->
+       add ("SHAPE=" ^ fmt_list cfg.r_shape);
+       let st = ref (init_sstate cfg) in
+       let zero = List.init (ZA.to_int (elements cfg.r_shape)) (fun _ -> qc_of ZA.zero ZA.one) in
+       (try
+          List.iter (fun gts ->
+              let (st', res) = read_site cfg.r_map cfg.r_cols cfg.r_pto !st (List.map classify gts) in
+              st := st';
+              match res with
+              | SErrPloidy -> add " E"; raise Exit
+              | SRead (Standard c) -> add (" S" ^ fmt_list c)
+              | SRead (Projected vs) -> add (" P" ^ fmt_qs (zip_madd zero vs (qc_of ZA.one ZA.one)))
+              | SRead Insufficient -> add " I") (parse_records recs);
+          add " D"
+        with Exit -> ()))
+  (* create STRICT COLS SAMPLES PROJ RECS : the whole run loop; records as for `sites`, "!" = unreadable record *)
+  | ["create"; strict; cols; samples; proj; recs] ->
+    let cols = List.map name_of_string (split_list cols) in
+    (match build_reader cols (parse_samples samples) (parse_project proj) with
+     | Inr e -> add (fmt_build_err e)
+     | Inl cfg ->
+       let items = if recs = "-" then [] else
+           List.mapi (fun i r ->
+               if r = "!" then IIoErr
+               else IRec { rec_contig = name_of_string "chr1"; rec_pos = ZA.of_int (i + 1);
+                           rec_gts = List.map gt_of_string (S.split_on_char ',' r) })
+             (S.split_on_char ';' recs) in
+       let o = create_run cfg (strict = "1") items in
+       (match o.out_spectrum with
+        | Some (sh, data) -> add ("OK " ^ fmt_list sh ^ " " ^ fmt_qs data)
+        | None -> add "FAIL");
+       (match o.out_summary with Some (a, b) -> add (" skipped=" ^ zs a ^ "/" ^ zs b) | None -> add " skipped=none");
+       (match o.out_error with
+        | None -> ()
+        | Some (RErrGenotype (c, p)) -> add (" err=genotype@" ^ string_of_name c ^ ":" ^ zs p)
+        | Some (RErrStrict (c, p)) -> add (" err=strict@" ^ string_of_name c ^ ":" ^ zs p)
+        | Some RErrRead -> add " err=read"))
+  | _ -> add "BAD-CASE"
+
 let run_case line =
   let toks = split_ws line in
   match toks with
@@ -121,16 +235,18 @@ let run_case line =
     (match op with
      | "get" | "getaxis" | "view" | "axisiter" | "indices" | "sum" -> run_array toks
      | "fold" | "marg" | "keep" | "project" | "pmf" | "binom" -> run_spectrum toks
+     | "npyw" | "npyr" | "textw" | "read" | "fmt" | "parse" | "detect" -> run_bytes toks
+     | "classify" | "sites" | "create" -> run_create toks
      | _ -> add ("UNKNOWN-OP " ^ op))
 
 let () =
   try
     while true do
-      let line = String.trim (input_line stdin) in
+      let line = S.trim (input_line stdin) in
       if line <> "" && line.[0] <> '#' then begin
         Buffer.clear buf;
         (try run_case line with e -> add (" MODEL-EXN " ^ Printexc.to_string e));
-        print_endline (String.trim (Buffer.contents buf))
+        print_endline (S.trim (Buffer.contents buf))
       end
     done
   with End_of_file -> ()
